@@ -415,4 +415,161 @@ theorem san_wf (chars : List Bytes) (h : ∀ ch ∈ chars, wfChar ch = true) : s
     rw [go_wfChar ch _ (h ch (by simp)), this]
 
 
+/-! ### the strict incremental decoder -/
+
+theorem stepS_conserves (p : Bytes) (x : UInt8) (r : Bytes × Bytes) (h : stepS p x = some r) :
+    p ++ [x] = r.1 ++ r.2 := by
+  unfold stepS at h
+  split at h
+  · split at h
+    · simp at h; subst h; simp
+    · split at h
+      · simp at h
+      · simp at h; subst h; simp
+  · split at h
+    · split at h <;> (simp at h; subst h; simp)
+    · simp at h
+
+theorem stepS_stepB (p : Bytes) (x : UInt8) (r : Bytes × Bytes) (h : stepS p x = some r) : stepB p x = r := by
+  unfold stepS at h
+  unfold stepB
+  split at h
+  · simp only [start]
+    split at h
+    · simp at h; subst h; simp [*]
+    · split at h
+      · simp at h
+      · simp at h; subst h; simp [*]
+  · rename_i b0 rest
+    split at h
+    · rename_i hacc
+      simp only [hacc, if_true]
+      split at h <;> (simp at h; subst h; simp_all)
+    · simp at h
+
+theorem goS_conserves (a : Bytes) : ∀ (p : Bytes) (r : Bytes × Bytes), goS p a = some r → p ++ a = r.1 ++ r.2 := by
+  induction a with
+  | nil => intro p r h; simp [goS] at h; subst h; simp
+  | cons x xs ih =>
+    intro p r h
+    simp only [goS] at h
+    cases hs : stepS p x with
+    | none => rw [hs] at h; simp at h
+    | some r1 =>
+      rw [hs] at h
+      simp only at h
+      cases hg : goS r1.2 xs with
+      | none => rw [hg] at h; simp at h
+      | some r2 =>
+        rw [hg] at h; simp at h; subst h
+        have h1 := stepS_conserves p x r1 hs
+        have h2 := ih r1.2 r2 hg
+        calc p ++ x :: xs = (p ++ [x]) ++ xs := by simp
+          _ = r1.1 ++ (r1.2 ++ xs) := by rw [h1, List.append_assoc]
+          _ = r1.1 ++ (r2.1 ++ r2.2) := by rw [h2]
+          _ = _ := by simp [List.append_assoc]
+
+theorem goS_goSt (a : Bytes) : ∀ (p : Bytes) (r : Bytes × Bytes), goS p a = some r → goSt p a = r := by
+  induction a with
+  | nil => intro p r h; simp [goS] at h; subst h; rfl
+  | cons x xs ih =>
+    intro p r h
+    simp only [goS] at h
+    cases hs : stepS p x with
+    | none => rw [hs] at h; simp at h
+    | some r1 =>
+      rw [hs] at h
+      simp only at h
+      cases hg : goS r1.2 xs with
+      | none => rw [hg] at h; simp at h
+      | some r2 =>
+        rw [hg] at h; simp at h; subst h
+        simp only [goSt, stepS_stepB p x r1 hs, ih r1.2 r2 hg]
+
+theorem goS_append (a b : Bytes) : ∀ p : Bytes, goS p (a ++ b) =
+    match goS p a with
+    | none => none
+    | some r => (goS r.2 b).map (fun r2 => (r.1 ++ r2.1, r2.2)) := by
+  induction a with
+  | nil => intro p; simp [goS]
+  | cons x xs ih =>
+    intro p
+    simp only [List.cons_append, goS]
+    cases hs : stepS p x with
+    | none => simp
+    | some r1 =>
+      simp only [ih r1.2]
+      cases hg : goS r1.2 xs with
+      | none => simp
+      | some r2 =>
+        simp only [Option.map_some]
+        cases goS r2.2 b with
+        | none => simp
+        | some r3 => simp [List.append_assoc]
+
+/-- a text the strict decoder accepts completely is a fixed point of decode-with-replacement, and
+    the decoder hands over exactly its bytes -/
+theorem strict_valid (a o : Bytes) (h : goS [] a = some (o, [])) : o = a ∧ san a = a := by
+  have hc := goS_conserves a [] (o, []) h
+  simp at hc
+  refine ⟨hc.symm, ?_⟩
+  have hg := goS_goSt a [] (o, []) h
+  rw [san, go_eq_goSt, hg]
+  simp [flush, hc]
+
+theorem incDecode_goS (p c : Bytes) (final : Bool) (r : Bytes × Bytes) (h : incDecode p c final = some r) :
+    goS p c = some r ∧ (final = true → r.2 = []) := by
+  unfold incDecode at h
+  cases hg : goS p c with
+  | none => rw [hg] at h; simp at h
+  | some r' =>
+    rw [hg] at h
+    simp only at h
+    split at h
+    · simp at h
+    · rename_i hf
+      simp at h; subst h
+      refine ⟨rfl, fun hfin => ?_⟩
+      simp [hfin] at hf
+      exact hf
+
+/-- all frames of one text message: the event data concatenate to what the whole-message decoder
+    yields, and nothing is held back at the end -/
+theorem decodeChunks_goS (cs : List Bytes) : ∀ (p : Bytes) (outs : List Bytes) (p' : Bytes),
+    decodeChunks p cs = some (outs, p') →
+    goS p cs.flatten = some (outs.flatten, p') ∧ (cs ≠ [] → p' = []) := by
+  induction cs with
+  | nil => intro p outs p' h; simp [decodeChunks] at h; obtain ⟨rfl, rfl⟩ := h; simp [goS]
+  | cons c rest ih =>
+    intro p outs p' h
+    cases rest with
+    | nil =>
+      simp only [decodeChunks] at h
+      cases hi : incDecode p c true with
+      | none => rw [hi] at h; simp at h
+      | some r =>
+        rw [hi] at h; simp at h; obtain ⟨rfl, rfl⟩ := h
+        obtain ⟨hg, hf⟩ := incDecode_goS p c true r hi
+        have := hf rfl
+        obtain ⟨r1, r2⟩ := r
+        simp at this; subst this
+        simp [hg]
+    | cons c2 rest' =>
+      simp only [decodeChunks] at h
+      cases hi : incDecode p c false with
+      | none => rw [hi] at h; simp at h
+      | some r =>
+        rw [hi] at h
+        simp only at h
+        cases hd : decodeChunks r.2 (c2 :: rest') with
+        | none => rw [hd] at h; simp at h
+        | some r2 =>
+          rw [hd] at h; simp at h; obtain ⟨rfl, rfl⟩ := h
+          obtain ⟨hg, _⟩ := incDecode_goS p c false r hi
+          obtain ⟨hg2, hf2⟩ := ih r.2 r2.1 r2.2 hd
+          refine ⟨?_, fun _ => hf2 (by simp)⟩
+          rw [List.flatten_cons, goS_append, hg]
+          simp only
+          rw [hg2]; simp
+
 end MitmVerif.C28
